@@ -644,6 +644,66 @@ fn special_descriptors(case: u64, r: &mut Rng) {
     out::count("special_descriptor_sequences", 1);
 }
 
+/// `WriteVolatile for Stdout`: exercised in a forked child whose descriptor 1 is a pipe (the
+/// parent's stdout carries the result protocol). The bytes that arrive in the pipe and the counts
+/// reported must be what `std::io::Write for Stdout` (followed by a flush) delivers for the same calls.
+fn stdout_adapter(seed: u64) {
+    use crate::common::fork::{self, Exit};
+    for case in 0..6u64 {
+        let mut r = Rng::new(seed, "c13-stdout", case);
+        let lens: Vec<usize> = (0..1 + r.usize_below(5)).map(|_| *r.pick(&[0usize, 1, 7, 8, 9, 64, 300])).collect();
+        let datas: Vec<Vec<u8>> = lens.iter().map(|n| r.bytes(*n)).collect();
+        let mut outs: Vec<Vec<u8>> = vec![];
+        for volatile in [true, false] {
+            let datas = datas.clone();
+            let all = case % 2 == 0;
+            let ex = fork::run(20, move || {
+                let (rd, wr) = pipe_pair();
+                use std::os::fd::AsRawFd;
+                // SAFETY: plain dup2 in the forked child.
+                unsafe { libc::dup2(wr.as_raw_fd(), 1) };
+                drop(wr);
+                let mut report: Vec<u8> = vec![];
+                let mut so = std::io::stdout();
+                for d in &datas {
+                    let res = if volatile {
+                        let vb = VBuf::new(d.len(), 3, 0);
+                        vb.a.write_at(0, d);
+                        if all { rv(so.write_all_volatile(&vb.vs()).map(|()| d.len())) } else { rv(so.write_volatile(&vb.vs())) }
+                    } else if all {
+                        rs(so.write_all(d).map(|()| d.len()))
+                    } else {
+                        rs(so.write(d))
+                    };
+                    report.extend_from_slice(format!("{:?};", res).as_bytes());
+                }
+                let _ = so.flush();
+                // SAFETY: closing our copy of the write end so that the read below terminates.
+                unsafe { libc::close(1) };
+                let mut got = vec![];
+                let _ = std::fs::File::from(rd).read_to_end(&mut got);
+                report.push(b'|');
+                report.extend_from_slice(&got);
+                report
+            });
+            match ex {
+                Exit::Ok(b) => outs.push(b),
+                other => {
+                    v("Stdout", "child-did-not-finish", jobj! {"exit" => J::dbg(&other), "volatile" => volatile});
+                    return;
+                }
+            }
+        }
+        if outs[0] != outs[1] {
+            let cut = |b: &Vec<u8>| String::from_utf8_lossy(&b[..b.iter().position(|c| *c == b'|').unwrap_or(0)]).to_string();
+            v("Stdout", "write/results-or-bytes-differ", jobj! {"lens" => J::dbg(&lens), "volatile_results" => cut(&outs[0]), "std_results" => cut(&outs[1]), "volatile_total" => outs[0].len(), "std_total" => outs[1].len()});
+        }
+        out::key(&format!("Stdout|{}|calls{}", if case % 2 == 0 { "write_all" } else { "write" }, lens.len()), true);
+        out::eval(lens.len() as u64);
+        out::count("stdout_adapter_sequences", 1);
+    }
+}
+
 /// Random longer sequences on the in-memory adapters.
 fn mem_sequences(case: u64, r: &mut Rng) {
     let slen = *r.pick(&[0usize, 1, 7, 8, 9, 16, 17, 40, 200, 5000]);
@@ -762,6 +822,9 @@ pub fn run(args: &Args) {
         }
         out::count("grid_max_len", max as i128);
         out::sample(jobj! {"grid" => "stream length 0..max x position {0,mid,len-1,len,len+1,u64::MAX-3,u64::MAX} x buffer length 0..max x {up-to, exact} x second call", "adapters" => "&[u8], Cursor<&[u8]>, Cursor<Vec<u8>>, &mut [u8], Vec<u8>, Cursor<&mut [u8]>", "max" => max});
+    }
+    if si == 0 && !cfg!(miri) {
+        stdout_adapter(args.seed());
     }
     for case in args.cases(500) {
         let mut r = Rng::new(args.seed(), "c13", case);
